@@ -82,7 +82,8 @@ static uint64_t allpqh[MAXOBJ * 2];     static int nallpqh;
 static uint64_t amnt[MAXP + 1];          /* progress slot of a buffer call */
 static int in_yield[MAXP + 1];           /* set while the process is inside cmb_process_yield() */
 static int cwait_pred[MAXP + 1];         /* predicate id while the process is inside cmb_condition_wait(), else -1 */
-static int nsub;                         /* number of guards the condition observes */
+static int nsub;                         /* number of registrations of the condition as an observer */
+static int nsubg[2];                     /* ... of resource 1's guard / of the buffer's front guard */
 static int running_pid;                  /* pid whose code is executing, 0 = dispatcher */
 
 static void crash_handler(int sig)
@@ -500,8 +501,14 @@ static bool exec_instr(int me, const struct instr *in)
     else if (is_op(in, "csub")) {
         /* subscribe the condition to the guard of resource 1 / the buffer front guard */
         cmb_condition_subscribe(cond, a0 == 0 ? &(res[1]->guard) : &(buf->front_guard));
-        nsub++;
+        nsub++; nsubg[a0 == 0 ? 0 : 1]++;
         log_do(me, in, 0, 0);
+    }
+    else if (is_op(in, "cunsub")) {
+        /* take one registration back; the result says whether there was one */
+        const bool r = cmb_condition_unsubscribe(cond, a0 == 0 ? &(res[1]->guard) : &(buf->front_guard));
+        if (r && nsubg[a0 == 0 ? 0 : 1] > 0) { nsub--; nsubg[a0 == 0 ? 0 : 1]--; }
+        log_do(me, in, r ? 1 : 0, 0);
     }
     else if (is_op(in, "setflag")) {
         if (a0 < 0 || a0 >= NFLAG) { log_skip(me, in, "bad-flag"); return true; }
@@ -665,7 +672,7 @@ static void run_program(void)
     pq = cmb_priorityqueue_create(); cmb_priorityqueue_initialize(pq, "PQ", P.pqcap < 0 ? CMB_UNLIMITED : (uint64_t)P.pqcap);
     cond = cmb_condition_create(); cmb_condition_initialize(cond, "Cond");
     for (int i = 1; i <= P.np; i++) cwait_pred[i] = -1;
-    nsub = 0;
+    nsub = 0; nsubg[0] = nsubg[1] = 0;
     for (int i = 1; i <= P.np; i++) {
         proc[i] = cmb_process_create();
         char nm[8]; snprintf(nm, sizeof nm, "P%d", i);
